@@ -211,14 +211,26 @@ func renameLocals(p *parsed, site int) (string, int) {
 		target[order[site]] = true
 		desc = "rename " + order[site].Name
 	}
+	// new names keep the first letter (it stands for the type in this family) and REVERSE the
+	// lexical order of the variables that share it (c0, c1 -> c998q, c997q): an analysis that orders
+	// anything by source names sees another order after the renaming
+	newName := map[*ast.Object]string{}
+	for i, o := range order {
+		if target[o] {
+			newName[o] = fmt.Sprintf("%s%03dq", o.Name[:1], 998-i)
+			if strings.HasPrefix(o.Name, "lbl") {
+				newName[o] = o.Name + "Zq"
+			}
+		}
+	}
 	ast.Inspect(p.file, func(nd ast.Node) bool {
 		if id, ok := nd.(*ast.Ident); ok && id.Obj != nil && target[id.Obj] {
-			id.Name = id.Obj.Name + "Zq"
+			id.Name = newName[id.Obj]
 		}
 		return true
 	})
 	for o := range target {
-		o.Name += "Zq"
+		o.Name = newName[o]
 	}
 	return desc, len(target)
 }
